@@ -201,6 +201,23 @@ def run(ctx: Ctx) -> None:
         opt = uu.optim.AdamW(Net().parameters(), lr=0.1)
         opt.step()
 
+    # ---- the three range properties against the model's transcription (exact rationals; the theorems `val_absmaxBits`,
+    #      `max_is_top_encoding`, `fmtVal_le_max`, `min_normal_spec`, `min_subnormal_spec` are about these definitions)
+    if ctx.driver_ok:
+        from fractions import Fraction
+        import struct
+        rr = driver.ask([{"k": "range", "E": E, "M": M} for (E, M) in formats])
+        for (E, M), r in zip(formats, rr):
+            f = FPFormat(E, M, "nearest")
+            got = {"max": Fraction(f.max_absolute_value), "min_normal": Fraction(f.min_absolute_normal),
+                   "min_subnormal": Fraction(f.min_absolute_subnormal)}
+            want = {k_: Fraction(r[k_]) for k_ in got}
+            bits_val = Fraction(struct.unpack("<f", struct.pack("<I", r["absmax_bits"]))[0])
+            if got != want or bits_val != want["max"]:
+                ctx.disagree("range_properties", {"E": E, "M": M}, {k_: str(v_) for k_, v_ in want.items()},
+                             {**{k_: str(v_) for k_, v_ in got.items()}, "value_of_clip_pattern": str(bits_val)}, THMS)
+            ctx.bump("range-properties")
+
     sample_bits = None
     for phase, (E, M) in [("fresh", fm) for fm in formats] + [("history", (0, 0))] + [("after-library-use", fm) for fm in formats]:
         if phase == "history":
